@@ -94,13 +94,15 @@ def db_tags(db):
 class Setup:
     """Runs Config -> Scheme -> KeyGen -> EDBSetup on the real classes; records the phase of any exception."""
 
-    def __init__(self, scheme, cfg, db):
+    def __init__(self, scheme, cfg, db, sse_obj=None):
+        """sse_obj: an existing scheme object built from an identical configuration (object reuse across databases
+        and keys: the result must not depend on what the object was used for before)."""
         self.scheme_name, self.cfg, self.db = scheme, cfg, db
         self.L = loader(scheme)
         self.error = None
         self.phase = "config"
         try:
-            self.sse = self.L.SSEScheme(cfg)
+            self.sse = sse_obj if sse_obj is not None else self.L.SSEScheme(cfg)
             self.phase = "keygen"
             self.key = self.sse.KeyGen()
             self.phase = "edbsetup"
